@@ -62,7 +62,9 @@ def gen_matrix(rng, T, n, kind):
     raise ValueError(kind)
 
 
-def gen_history(seed, idx, method, info, tier):
+def gen_history(seed, idx, method, info, tier, search=False):
+    """search=True: tie-prone variant (duplicated column, integer-valued data) used for the failing-input search that
+    follows a broken static obligation"""
     rng = np.random.default_rng([seed, idx, 7])
     slow = (info, method) in SLOW
     if slow:
@@ -77,8 +79,10 @@ def gen_history(seed, idx, method, info, tier):
         kind = "counts"
     else:
         kind = str(rng.choice(["real", "grid", "intgrid", "counts"], p=[0.3, 0.2, 0.3, 0.2]))
+    if search and info != "poisson":
+        kind = str(rng.choice(["intgrid", "counts", "real"]))
     A = gen_matrix(rng, T, n, kind)
-    if rng.random() < 0.12:                  # a duplicated sensor: bit-identical columns, exact ties between candidates
+    if rng.random() < (0.7 if search else 0.12):                  # a duplicated sensor: bit-identical columns, exact ties between candidates
         A[:, 1] = A[:, 0]
         kind += "+duplicated_column"
     params = dict(method=method, information=info, max_lag=L, alpha_forward=float(rng.choice([0.05, 0.1, 0.2])),
@@ -533,7 +537,7 @@ def plan(tier, seed):
     else:
         for info in INFOS:
             for method in METHODS:
-                combos += [(method, info)] * 75
+                combos += [(method, info)] * (45 if (info, method) in SLOW else 75)
     return combos
 
 
@@ -546,6 +550,11 @@ def run(chk):
     if fact is not None:
         chk.count("effect_table.functions", len(fact["functions"]))
         chk.count("effect_table.flagged_functions_in_package_scope", sum(1 for e in fact["functions"] if e["flags"]))
+        chk.extra["effect_table_findings"] = {
+            "flagged": {e["name"]: e["flags"] for e in fact["functions"] if e["flags"]},
+            "bad_generator_binding": [e["name"] for e in fact["functions"] if e["rngk"] == "RngBad"],
+            "rng_not_passed_on": [[e["name"], c] for e in fact["functions"] for c, a in e["calls"] if a in ("ArgMissing", "ArgOther")],
+            "root_generator": fact["root_rng"]}
         # self-test of the reader: textual variants of today's discovery.py must fail at least one of the three checks
         variants = translate_C07.selftest_tables()
         if variants:
@@ -572,6 +581,13 @@ def run(chk):
                         "answers are compared bit for bit: same interpreter, same libraries, same machine"]
     combos = plan(chk.tier, chk.seed)
     specs = [gen_history(chk.seed, i, m, inf, chk.tier) for i, (m, inf) in enumerate(combos)]
+    if any(not o["ok"] for o in chk.obligations if o["kind"] == "translator-lemma"):
+        # DESIGN 2.7: a static obligation no longer checks -> spend a dedicated budget searching for a failing input:
+        # tie-prone histories (duplicated columns, integer-valued data) over every method and the fast estimators
+        extra = [(m, inf) for _ in range(3) for m in METHODS for inf in ("knn", "gaussian", "kde")] + \
+                [(m, "geometric_knn") for m in ("information_lasso", "lasso", "standard")]
+        specs += [gen_history(chk.seed, len(combos) + i, m, inf, chk.tier, search=True) for i, (m, inf) in enumerate(extra)]
+        chk.count("search_histories_after_broken_static_obligation", len(extra))
     # one task per history and one per (history, request) reference call; every task runs in a fresh forked process
     # (maxtasksperchild=1), so a reference has no history at all.  Costly ones first (better packing).
     order = sorted(range(len(specs)), key=lambda i: (0 if (specs[i]["info"], specs[i]["method"]) in SLOW else 1, i))
